@@ -9,7 +9,7 @@ EXPLANATION = ("Static rules over the resolved MIR: ARITH (the integer parsers u
                "fallible TryFrom narrowing — the structural content of `never wrapped, saturated or truncated`), TABLE (each "
                "deserialize_X calls the parser instantiated at X and visit_X; the bool / null / special-float literal tables equal "
                "the documented ones; radix prefixes), STYLE (null-likeness and number/bool-likeness are refused for non-plain "
-               "scalars), WIRE (Cfg::from_options copies each switch from its corresponding option and each switch is read only in "
+               "scalars), ORDER (deserialize_any attempts null, bool, int, float, string in that order: each later interpretation is unreachable on paths avoiding the earlier test), WIRE (Cfg::from_options copies each switch from its corresponding option and each switch is read only in "
                "its documented places), BASE64 (canonical-padding masks, length and pad-position checks, each failing edge returns "
                "the base64 error).")
 ASSUMPTIONS = ["rustc's MIR (opt-level 0) faithfully represents the compiled crate",
@@ -247,6 +247,44 @@ def rule_style(ctx, fx, config):
               "scalar_is_nullish_for_option no longer distinguishes quoted styles (tested: %s)" % sorted(tested), config, ctx.where(g))
 
 
+def rule_any_order(ctx, fx, config):
+    """untyped inference order of deserialize_any: null, bool, int, float, string — each later interpretation is attempted
+    only on paths that already tried (and left) every earlier one."""
+    f = fx.fn(DESER + "deserialize_any")
+    ctx.saw(f)
+    entry = [0]
+
+    def calls(pred):
+        return [b for b, t in f.calls() if pred(fx.callee(t), t)]
+    N = calls(lambda c, t: c == PS + "scalar_is_nullish")
+    B = calls(lambda c, t: c == PS + "parse_yaml11_bool" or last_seg(c) == "eq_ignore_ascii_case")
+    I = calls(lambda c, t: c in (PS + "parse_int_signed", PS + "parse_int_unsigned"))
+    F = calls(lambda c, t: c == PS + "parse_yaml12_float")
+
+    def visits(*names):
+        return [b for b, t in f.calls() if str(t["f"].get("trait")) == "serde::de::Visitor" and t["f"].get("name") in names]
+    vb, vi, vf = visits("visit_bool"), visits("visit_i64", "visit_u64", "visit_i128", "visit_u128"), visits("visit_f64", "visit_f32")
+    typed_region = f.reachable(B) if B else set()
+    vs = [b for b in visits("visit_string", "visit_str", "visit_borrowed_str") if b in typed_region]
+    ctx.floor("ORDER.stage-calls", len(N) + len(B) + len(I) + len(F), 8, config)
+    ctx.floor("ORDER.visits", len(vb) + len(vi) + len(vf) + len(vs), 8, config)
+    stages = [("null", N, "bool", B + vb), ("bool", B, "int", I + vi), ("int", I, "float", F + vf), ("float", F, "string", vs)]
+    for prev, pb, nxt, nb in stages:
+        free = f.reachable(entry, avoid=pb) if pb else set(f.live_blocks)
+        leak = sorted(b for b in nb if b in free)
+        ctx.check(bool(pb) and bool(nb) and not leak, "ORDER", "C06:ORDER:any:%s-before-%s" % (prev, nxt),
+                  "the %s interpretation is attempted only after the %s test (%d/%d sites)" % (nxt, prev, len(nb), len(pb)),
+                  "deserialize_any reaches the %s interpretation (line(s) %s) on a path that skipped the %s test: untyped inference order null, bool, int, float, string is broken" %
+                  (nxt, [f.blocks[b]["term"].get("ln") for b in leak], prev), config, ctx.where(f))
+    # the null test answers unit on its true edge, and nothing typed is reached from there
+    for nbk in N:
+        t = f.blocks[nbk]["term"]
+        e = switch_edges(f, t["t"]) if t["t"] is not None else None
+        vu = visits("visit_unit", "visit_none")
+        okn = bool(e) and bool(f.reachable([e[0]]) & set(vu)) and not (f.reachable([e[0]]) & set(vb + vi + vf + vs + visits('visit_string', 'visit_str', 'visit_borrowed_str')))
+        ctx.check(okn, "ORDER", "C06:ORDER:any:null-yields-unit", "a null-like plain scalar yields unit", "the null-like edge of deserialize_any does not end in visit_unit", config, ctx.where(f, nbk))
+
+
 def rule_wire(ctx, fx, config):
     f = fx.fn("de::Cfg::from_options")
     ctx.saw(f)
@@ -370,5 +408,6 @@ def run(ctx):
         rule_typed_table(ctx, fx, config)
         rule_literal_tables(ctx, fx, config)
         rule_style(ctx, fx, config)
+        rule_any_order(ctx, fx, config)
         rule_wire(ctx, fx, config)
         rule_base64(ctx, fx, config)
